@@ -187,6 +187,14 @@ func (p *Path) feasible(c *Term) (bool, map[string]uint64) {
 }
 
 func (p *Path) branch(c *Term) bool {
+	r := p.branch0(c)
+	if p.schedDet && !c.IsConst() {
+		p.narrow(c, r)
+	}
+	return r
+}
+
+func (p *Path) branch0(c *Term) bool {
 	if c.W != 0 {
 		panic("branch on non-bool")
 	}
